@@ -1140,4 +1140,59 @@ example : ∀ r ∈ [List.replicate 1281 (7 : Nat)], 1 + 37 ≤ r.length ∧ r.l
 example : (0 : Nat) < 1280 ∧ 1280 < (List.replicate 1281 (7 : Nat)).length := by
   rw [List.length_replicate]; omega
 
+/-! ## the first-byte demultiplexer of `_recv_next` (RFC 7983) -/
+
+/-- The classes partition 0..255 exactly as RFC 7983 says: [20..63] DTLS, [128..191] RTP/RTCP, everything else
+(STUN 0..3, ZRTP 16..19, TURN channels 64..79, 80..127, 192..255) is dropped. -/
+theorem demux_rfc7983 (b : Nat) :
+    (demuxClass b = .dtls ↔ 20 ≤ b ∧ b ≤ 63) ∧ (demuxClass b = .srtp ↔ 128 ≤ b ∧ b ≤ 191) ∧
+    (demuxClass b = .drop ↔ b ≤ 19 ∨ (64 ≤ b ∧ b ≤ 127) ∨ 192 ≤ b) := by
+  unfold demuxClass
+  refine ⟨?_, ?_, ?_⟩ <;> (split <;> (try split) <;> simp <;> omega)
+
+/-- every one of the 256 byte values is in exactly the class the RFC gives it (checked value by value) -/
+theorem demux_table : ∀ b < 256, demuxClass b =
+    (if 20 ≤ b ∧ b ≤ 63 then Demux.dtls else if 128 ≤ b ∧ b ≤ 191 then Demux.srtp else Demux.drop) := by
+  intro b _
+  unfold demuxClass
+  have e1 : (19 < b ∧ b < 64) ↔ (20 ≤ b ∧ b ≤ 63) := by omega
+  have e2 : (127 < b ∧ b < 192) ↔ (128 ≤ b ∧ b ≤ 191) := by omega
+  simp only [e1, e2]
+
+/-- `recvNext` IS this demultiplexer: a dropped class produces nothing and asks neither OpenSSL nor libsrtp. -/
+theorem recvNext_drop (t : T) (b : Nat) (rest : Bytes) (ssl : SslRecv) (u : Unprotect)
+    (h : demuxClass b = .drop) : recvNext t (.pkt (b :: rest) ssl u) = .ok [] := by
+  unfold demuxClass at h
+  split at h
+  · simp at h
+  · rename_i h1
+    split at h
+    · simp at h
+    · rename_i h2
+      simp only [recvNext, h1, if_false]
+      have : ¬(127 < b ∧ b < 192 ∧ t.srtp.isSome = true) := fun hh => h2 ⟨hh.1, hh.2.1⟩
+      simp [this]
+
+/-- Every first byte 0x80..0xBF (all 64 RTP layouts P × X × CC, all RTCP padding × count values) reaches libsrtp once
+the SRTP sessions exist, and what `unprotect` returns is handed on — RTCP iff the second byte is 192..208. -/
+theorem recvNext_srtp_sweep (t : T) (b : Nat) (rest d : Bytes) (ssl : SslRecv)
+    (hb : 128 ≤ b ∧ b ≤ 191) (hs : t.srtp.isSome = true) :
+    recvNext t (.pkt (b :: rest) ssl (.ok d)) =
+      .ok [if isRtcp (b :: rest) then .deliverRtcp d else .deliverRtp d] := by
+  have h1 : ¬(19 < b ∧ b < 64) := by omega
+  have h2 : 127 < b ∧ b < 192 ∧ t.srtp.isSome = true := ⟨by omega, by omega, hs⟩
+  simp only [recvNext, h1, if_false, h2, and_self, if_true]
+  split <;> simp_all
+
+/-- … and every first byte 20..63 reaches OpenSSL. -/
+theorem recvNext_dtls_sweep (t : T) (b : Nat) (rest : Bytes) (u : Unprotect) (hb : 20 ≤ b ∧ b ≤ 63) :
+    recvNext t (.pkt (b :: rest) .error u) = .ok [] ∧ recvNext t (.pkt (b :: rest) .zeroReturn u) = .connError := by
+  have h1 : 19 < b ∧ b < 64 := by omega
+  simp [recvNext, h1]
+
+example : demuxClass 0xBF = .srtp ∧ demuxClass 0x80 = .srtp ∧ demuxClass 0xC0 = .drop ∧ demuxClass 63 = .dtls ∧
+    demuxClass 64 = .drop ∧ demuxClass 19 = .drop ∧ demuxClass 20 = .dtls := by decide
+example : recvNext { (init [] true .client) with srtp := some ⟨⟨"x", 16, 14⟩, [], []⟩ } (.pkt [0xBF, 96, 1] .notAsked (.ok [7])) =
+    .ok [.deliverRtp [7]] := by decide
+
 end Aiortc.Props.C04
